@@ -24,10 +24,31 @@ def only_in_export(w, rng):
                 w.remove_files(lambda rel, data, tgt=tgt, f=f: rel != tgt and data == f.content)
 
 
+def linked_targets(w, rng):
+    """Flag on; two export paths with DIFFERENT declared lengths are hard links of one file whose
+    length lies between them: it is over-long for one of them, so the run must abort untouched."""
+    w.resize = True
+    fs = [(t, f) for t in w.torrents for f in t.files if not f.pad]
+    pairs = [(a, b) for a in fs for b in fs if a[1].length > b[1].length + 0]
+    if not pairs:
+        return
+    (ta, fa), (tb, fb) = rng.choice(pairs)
+    pa = tuple(list(w.export) + ta.rel_target(fa))
+    pb = tuple(list(w.export) + tb.rel_target(fb))
+    if pa == pb:
+        return
+    for p in (pa, pb):
+        w.remove_files(lambda rel, data, p=p: rel == p)
+        w.files.pop(p, None)
+    n = rng.randint(fb.length + 1, fa.length)
+    w.put_file(pa, (fa.content + bytes(n))[:n])
+    w.put_link(pb, pa)
+
+
 correspondence, search, replay, ASSUMPTIONS = runbase.make(
     "C14", [oracles.c14, oracles.c02],
     [("on", 140, 1200, {"export_heavy": True}, force(True)), ("off", 80, 700, {"export_heavy": True}, force(False)),
-     ("source", 60, 500, {"export_heavy": True}, only_in_export)],
-    "worlds in which most export files pre-exist in a random state (absent / shorter by any amount / exact / longer), any file order, flag on and off, and (stream source) extended export files as the only source of their pieces (availability oracle of C02 on the state after the pre-flight); pre-flight operations from the fs-shim log and before/after snapshots, plus trace validation of the prelude program",
+     ("source", 50, 450, {"export_heavy": True}, only_in_export), ("linked", 30, 250, {"export_heavy": True}, linked_targets)],
+    "worlds in which most export files pre-exist in a random state (absent / shorter by any amount / exact / longer), any file order, flag on and off, and (stream source) extended export files as the only source of their pieces, (stream linked) two export paths of different declared lengths hard-linked to one file that is over-long for one of them (availability oracle of C02 on the state after the pre-flight); pre-flight operations from the fs-shim log and before/after snapshots, plus trace validation of the prelude program",
     "resize_abort_no_mutation / resize_extends_exactly on the prelude program; tied to fix_export_file_lengths by prelude trace validation",
     ["a directory sitting at an export path is outside the modelled fragment"])
